@@ -306,9 +306,39 @@ fn family(rng: &mut Rng, corpus: &Corpus, deep_levels: (usize, usize), out: &mut
             "log-heavy"
         }
         7 => {
-            for _ in 0..rng.range(1, 3) {
-                let fr = rng.chance(1, 3);
-                out.push(helper_op(rng, fr));
+            if rng.chance(1, 2) {
+                for _ in 0..rng.range(1, 3) {
+                    let fr = rng.chance(1, 3);
+                    out.push(helper_op(rng, fr));
+                }
+            } else {
+                // the same helper again and again with different (often equally sized) values, parsed
+                // fresh each time: stale one-entry memos, address or length keyed caches
+                let first = helper_op(rng, true);
+                let n = rng.range(2, 5);
+                out.push(first.clone());
+                for _ in 0..n {
+                    let mut next = first.clone();
+                    for a in next.args.iter_mut() {
+                        let v: Value = serde_json::from_str(a).unwrap();
+                        let nv = match (&v, rng.below(3)) {
+                            (Value::String(s), 0) => Value::String(s.chars().rev().collect()),
+                            (Value::Array(xs), 0) => {
+                                let mut ys = xs.clone();
+                                ys.reverse();
+                                Value::Array(ys)
+                            }
+                            _ => gen::vary(rng, &v),
+                        };
+                        *a = t(&nv);
+                    }
+                    next.fresh = rng.chance(3, 4);
+                    next.alias = false;
+                    out.push(next);
+                }
+                if rng.chance(1, 2) {
+                    out.push(first);
+                }
             }
             "helpers"
         }
@@ -900,7 +930,7 @@ pub fn exec_in_child(run: &E1Run, isos: &[Vec<Arc<Iso>>]) -> RunReport {
     let mut timed_out = false;
     loop {
         let mut pfd = libc::pollfd { fd: rfd, events: libc::POLLIN, revents: 0 };
-        let r = unsafe { libc::poll(&mut pfd, 1, 40_000) };
+        let r = unsafe { libc::poll(&mut pfd, 1, 180_000) };
         if r == 0 {
             timed_out = true;
             unsafe { libc::kill(pid, libc::SIGKILL) };
@@ -923,8 +953,15 @@ pub fn exec_in_child(run: &E1Run, isos: &[Vec<Arc<Iso>>]) -> RunReport {
     match parsed {
         Some(r) if !timed_out && libc::WIFEXITED(status) && libc::WEXITSTATUS(status) == 0 => r,
         _ => {
+            if timed_out {
+                // the child's own supervisor reports stalls and deadlocks; a child that merely did not
+                // finish in time (an overloaded machine) says nothing about the code
+                let mut rep = RunReport::default();
+                rep.stalled = Some("run process gave no report within 180 s".to_string());
+                return rep;
+            }
             let how = if timed_out {
-                "no report within 40 s".to_string()
+                "no report within 180 s".to_string()
             } else if libc::WIFSIGNALED(status) {
                 format!("run process killed by signal {}", libc::WTERMSIG(status))
             } else {
